@@ -3,6 +3,7 @@ package eventrecorder
 import (
 	"crypto/x509"
 	"crypto/x509/pkix"
+	"flag"
 	"fmt"
 	"os"
 	"path/filepath"
@@ -63,6 +64,13 @@ func TestVerifC20(t *testing.T) {
 			os.Remove(filename)
 			sr = &EventRecorder{filename: filename, eventsMap: make(map[string]*eventsListType)}
 			io.emit("reset")
+		case "scaleflag":
+			// r scaleflag <name> <factor>: a command-line option of this package, moved away from its default
+			if len(f) != 3 {
+				io.emit("bad-op")
+				continue
+			}
+			io.emit("%s", vfScaleFlag(f[1], f[2]))
 		case "rec":
 			io.emit("%s", vfRec(sr, f[1:], base))
 		case "snap":
@@ -340,4 +348,27 @@ func (l *vfLoop) op(f []string) string {
 		return fmt.Sprintf("restarted now=%d", now)
 	}
 	return "bad-op"
+}
+
+func vfScaleFlag(name, factorStr string) string {
+	fl := flag.Lookup(name)
+	factor, err := strconv.Atoi(factorStr)
+	if fl == nil || err != nil {
+		return "no-such-flag"
+	}
+	if d, err := time.ParseDuration(fl.DefValue); err == nil && d > 0 {
+		nv := (d * time.Duration(factor)).String()
+		if err := flag.Set(name, nv); err != nil {
+			return "set-failed"
+		}
+		return fmt.Sprintf("flag %s %s -> %s", name, fl.DefValue, nv)
+	}
+	if n, err := strconv.ParseInt(fl.DefValue, 10, 64); err == nil && n > 0 {
+		nv := strconv.FormatInt(n*int64(factor), 10)
+		if err := flag.Set(name, nv); err != nil {
+			return "set-failed"
+		}
+		return fmt.Sprintf("flag %s %s -> %s", name, fl.DefValue, nv)
+	}
+	return "skipped " + name
 }
